@@ -198,6 +198,13 @@ Start(c) == fstate = "idle" /\ cfg = NoCfg /\ StartTo(c)
 \* ResetGuardLen: the guard also lets an existing but EMPTY table through (a Toc with __len__);
 \* the second fetcher takes the place of the first in this model.
 LogResetCb(r, pend1) ==
+    IF Bug = "StaleFetcher" /\ Len(r.d) >= 3 /\ r.d[1] = 5 /\ lt = "wait" /\ cbOn
+    THEN \* a fetcher of the dead connection is still registered and takes part: it goes on with ITS
+         \* index and ITS item count on the new table (caricature of two fetchers on one port)
+         /\ lt' = "on" /\ toc' = <<>>
+         /\ Send(ItemReq(reqIdx), pend1, up)
+         /\ UNCHANGED <<fstate, cbOn, reqIdx, nItems, xstate, xcount, xreq, xqueue, xlock, done, doneSnap>>
+    ELSE
     IF Len(r.d) >= 3 /\ r.d[1] = 5 /\
        (lt = "wait" \/ (Bug = "ResetGuardLen" /\ lt = "on" /\ toc = <<>>))
     THEN /\ lt' = "on"
@@ -350,7 +357,20 @@ Restart == /\ Bug = "VersionRestarts" /\ budget > 0 /\ cfg.kind = "log" /\ lt # 
            /\ UNCHANGED <<cfg, fstate, cbOn, reqIdx, nItems, toc, down,
                           xstate, xcount, xreq, xqueue, xlock, done, doneSnap>>
 
-Next == \/ \E c \in Configs : Start(c)
+\* The link dies in the middle of the log download and the application opens it again on the same
+\* object; the device has been reflashed (configuration c: a larger table).  In the code as it is
+\* the fetcher of the dead link drops out at its next packet (it remembers its link object), so a
+\* reconnect is a fresh Start and not a separate action.  StaleFetcher: the old fetcher takes the
+\* new connection for its own (e.g. because it compares URIs) and stays registered.
+Reconnect(c) ==
+    /\ Bug = "StaleFetcher" /\ budget > 0 /\ cfg.kind = "log" /\ fstate = "elem" /\ cbOn /\ ~done
+    /\ c.kind = "log" /\ c.ver = cfg.ver /\ c.cached = "none" /\ Len(c.dev) > Len(cfg.dev)
+    /\ cfg' = c /\ lt' = "wait"
+    /\ up' = <<ResetReq>> /\ pend' = (IF c.resend THEN {ResetReq} ELSE {}) /\ down' = EmptyBag
+    /\ budget' = budget - 1
+    /\ UNCHANGED <<fstate, cbOn, reqIdx, nItems, toc, xstate, xcount, xreq, xqueue, xlock, done, doneSnap>>
+
+Next == \/ \E c \in Configs : Start(c) \/ Reconnect(c)
         \/ \E r \in BagToSet(down) : Deliver(r) \/ Dup(r)
         \/ ExtSend \/ DevReply \/ Restart
         \/ \E q \in pend : Timeout(q)
